@@ -132,16 +132,20 @@ func runLookup(r *report.Run, c *LookupCase) (f *report.Failure) {
 	copy(gvr[:], gb)
 	e := c.Query
 	slot := e*c.SPE + c.SlotOff%c.SPE
-	if e > (^uint64(0))/c.SPE-1 {
-		return nil
+	if e == far {
+		return nil // FAR_FUTURE_EPOCH itself is "never": no fork is defined to be active there
 	}
+	// epochs whose start slot does not fit 64 bits exist for the epoch-keyed lookups only
+	slotOK := e <= (^uint64(0))/c.SPE-1
 	wantFork := refForkAt(c, e)
 	wantVersion := ver(c.Versions[wantFork])
 	r.Eval(1)
 
 	// 1. Spec.ForkVersion
-	if got := spec.ForkVersion(common.Slot(slot)); [4]byte(got) != wantVersion {
-		return report.Failf("ForkVersion/wrong", "schedule %v: Spec.ForkVersion(slot %d, epoch %d) = %x, compute_fork_version says %x (%s)", c.Epochs, slot, e, got, wantVersion, forkNames[wantFork])
+	if slotOK {
+		if got := spec.ForkVersion(common.Slot(slot)); [4]byte(got) != wantVersion {
+			return report.Failf("ForkVersion/wrong", "schedule %v: Spec.ForkVersion(slot %d, epoch %d) = %x, compute_fork_version says %x (%s)", c.Epochs, slot, e, got, wantVersion, forkNames[wantFork])
+		}
 	}
 	// 2. ForkDecoder.ForkDigest
 	dec := beacon.NewForkDecoder(spec, common.Root(gvr))
@@ -159,6 +163,30 @@ func runLookup(r *report.Run, c *LookupCase) (f *report.Failure) {
 		if got := blockTypeName(alloc()); got != forkNames[wantFork] {
 			return report.Failf("BlockAllocator/wrong-type", "schedule %v epoch %d: allocator gives a %s block, the fork is %s", c.Epochs, e, got, forkNames[wantFork])
 		}
+	}
+	// 3b. a digest that belongs to no configured fork (here: the right version under another genesis root) has no block type
+	{
+		other := gvr
+		other[0] ^= 0x80
+		unk := sp.ComputeForkDigest(wantVersion, other)
+		known := false
+		for i := 0; i < 7; i++ {
+			if sp.ComputeForkDigest(ver(c.Versions[i]), gvr) == unk {
+				known = true
+			}
+		}
+		if !known {
+			if _, err := dec.BlockAllocator(common.ForkDigest(unk)); err == nil {
+				return report.Failf("BlockAllocator/unknown-digest-accepted", "schedule %v: digest %x (another genesis validators root) is not one of the configured forks' digests, yet an allocator was returned", c.Epochs, unk)
+			}
+			r.Class("lookup:unknown-digest-refused")
+		}
+	}
+	if !slotOK {
+		r.Class("lookup-epoch-beyond-slot-range:" + forkNames[wantFork])
+		r.Hit("lookup:epoch-beyond-slot-range")
+		r.NonTrivial(fmt.Sprintf("%s|%s|beyond-slot-range", shape(c), forkNames[wantFork]))
+		return nil
 	}
 	// 4. envelope round trip and signature, phase0..deneb blocks (electra: round trip only)
 	if wantFork <= 5 {
@@ -210,6 +238,26 @@ func runLookup(r *report.Run, c *LookupCase) (f *report.Failure) {
 			return report.Failf("Envelope/body-root", "%s envelope BodyRoot differs from hash_tree_root(body)", forkNames[wantFork])
 		}
 		_ = tree.GetHashFn
+		// 4b. the envelope of an object is taken again after its body changed (a proposer drafting a block, a
+		// recycled block object): it must describe the body as it is now, not as it was at the first call
+		if gf := reflect.ValueOf(blk).Elem().FieldByName("Message").FieldByName("Body").FieldByName("Graffiti"); gf.IsValid() && gf.CanSet() && gf.Len() == 32 {
+			body2 := append([]any{}, msg[4].([]any)...)
+			g2 := make([]byte, 32)
+			for i := range g2 {
+				g2[i] = byte(c.Seed>>uint(i%8*8)) ^ byte(i) ^ 0x5a
+				gf.Index(i).SetUint(uint64(g2[i]))
+			}
+			body2[2] = g2
+			msg2 := append([]any{}, msg...)
+			msg2[4] = body2
+			wantBody := refssz.HashTreeRoot(sp.T(forkNames[wantFork]+".BeaconBlockBody"), body2)
+			wantBlock := refssz.HashTreeRoot(msgType, msg2)
+			env3 := blk.Envelope(spec, gotDigest)
+			if [32]byte(env3.BlockRoot) != wantBlock || ([32]byte(env3.BodyRoot) != wantBody && env3.BodyRoot != (common.Root{})) {
+				return report.Failf("Envelope/stale-after-body-change", "%s: after changing the graffiti of a block whose envelope had been taken before, Envelope() gives block root %x / body root %x, the block now has %x / %x", forkNames[wantFork], env3.BlockRoot, env3.BodyRoot, wantBlock, wantBody)
+			}
+			r.Class("envelope-retaken-after-body-change")
+		}
 		// signature: the version the slot implies verifies, every other configured version does not
 		pk := refspec.KeyPubkey(signKey)
 		cached := &common.CachedPubkey{Compressed: common.BLSPubkey(pk)}
@@ -325,6 +373,25 @@ func genLookup(t *rapid.T) *LookupCase {
 			d = 0
 		}
 		c.Query = uint64(int64(b) + int64(d))
+	} else if rapid.IntRange(0, 4).Draw(t, "huge") == 0 {
+		// epochs near the top of the range: the start slot of such an epoch does not fit 64 bits for SLOTS_PER_EPOCH > 1
+		top := (^uint64(0)) / c.SPE
+		d := rapid.Uint64Range(0, 3).Draw(t, "huge_d")
+		switch rapid.IntRange(0, 4).Draw(t, "huge_k") {
+		case 0:
+			c.Query = top - 1 + d // around the last epoch with a representable start slot
+		case 1:
+			c.Query = uint64(1)<<uint(rapid.IntRange(56, 63).Draw(t, "huge_bit")) + d + rapid.Uint64Range(0, 1<<21).Draw(t, "huge_off")
+		case 2:
+			c.Query = far - 1 - d
+		case 3:
+			c.Query = top + 1 + rapid.Uint64Range(0, 1<<22).Draw(t, "huge_wrap") // start slot wraps to a small number
+		default:
+			c.Query = rapid.Uint64Range(1<<40, far-1).Draw(t, "huge_any")
+		}
+		if c.Query >= far {
+			c.Query = far - 1
+		}
 	} else {
 		c.Query = rapid.Uint64Range(0, 1<<21).Draw(t, "query")
 	}
@@ -551,7 +618,7 @@ func checkConstants(r *report.Run) {
 func TestCheck(t *testing.T) {
 	r := report.Begin("C14")
 	defer r.Finish()
-	r.Rule("(a) generated configurations (SLOTS_PER_EPOCH in {1,4,8,32}; non-decreasing fork epochs for altair..fulu incl. 0, equal, adjacent, far apart and never-activated; 7 distinct versions; random genesis validators root) x a queried epoch on or next to a boundary or anywhere: Spec.ForkVersion, ForkDecoder.ForkDigest, BlockAllocator, random block -> Envelope -> EnvelopeToSignedBeaconBlock identity, VerifySignature under the implied version (must pass) and under each of the six others (must fail); (b) chains advanced slot by slot across every boundary: state type and fork record; (c) the built-in constants enumerated against the pinned table. non-trivial (a) = epoch within 1 of a boundary or coinciding forks; distinct key = (schedule shape, fork at epoch, side)")
+	r.Rule("(a) generated configurations (SLOTS_PER_EPOCH in {1,4,8,32}; non-decreasing fork epochs for altair..fulu incl. 0, equal, adjacent, far apart and never-activated; 7 distinct versions; random genesis validators root) x a queried epoch on or next to a boundary, anywhere, or near the top of the 64-bit range (where only the epoch-keyed lookups ForkDigest/BlockAllocator exist because the start slot does not fit 64 bits; FAR_FUTURE_EPOCH itself excluded); a digest of no configured fork must get no allocator; Spec.ForkVersion, ForkDecoder.ForkDigest, BlockAllocator, random block -> Envelope -> EnvelopeToSignedBeaconBlock identity, VerifySignature under the implied version (must pass) and under each of the six others (must fail); (b) chains advanced slot by slot across every boundary: state type and fork record; (c) the built-in constants enumerated against the pinned table. non-trivial (a) = epoch within 1 of a boundary or coinciding forks; distinct key = (schedule shape, fork at epoch, side)")
 	r.Assume("the pinned constants table (spec_tables/constants_v1.5.0-beta.2.json) is the specification's; a constant wrong today and misremembered identically is not detected", "compute_fork_version generalised to electra/fulu in the obvious way", "BlockAllocator is judged up to electra (the library exports no fulu block type)")
 	replay := func(raw json.RawMessage) *report.Failure {
 		var probe map[string]json.RawMessage
@@ -574,7 +641,7 @@ func TestCheck(t *testing.T) {
 	if r.Replay != "" {
 		return
 	}
-	r.Mandatory("constants-enumerated", "lookup:phase0", "lookup:altair", "lookup:bellatrix", "lookup:capella", "lookup:deneb", "lookup:electra", "lookup:fulu",
+	r.Mandatory("constants-enumerated", "lookup:epoch-beyond-slot-range", "lookup:phase0", "lookup:altair", "lookup:bellatrix", "lookup:capella", "lookup:deneb", "lookup:electra", "lookup:fulu",
 		"chain-crosses:altair", "chain-crosses:bellatrix", "chain-crosses:capella", "chain-crosses:deneb")
 	if r.S.Shard == 0 {
 		checkConstants(r)
